@@ -44,8 +44,11 @@ def setter_effects(crate, prefix=BUILDER + "::"):
 
     def inl(n):
         # private helpers of the builder's module are part of a setter's body (e.g. `configure(|config| ..)`)
+        # ... and so are the builder's own methods (one setter written in terms of others)
         x = crate.body(n)
-        return x is not None and not x.is_pub and x.file in files and x.kind in ("fn", "assoc_fn") and not x.impl_trait and not x.derived
+        if x is None or x.file not in files or x.kind not in ("fn", "assoc_fn") or x.impl_trait or x.derived:
+            return False
+        return not x.is_pub or (x.kind == "assoc_fn" and x.path.startswith(prefix) and "::" not in x.path[len(prefix):])
     m = ccp.Machine([crate], inline=inl)
     for b in crate.bodies:
         if b.kind != "assoc_fn" or not b.path.startswith(prefix) or b.impl_trait:
@@ -816,14 +819,23 @@ def guarded_by_field_true(field):
 
 
 def def1(ctx, crate, rid="DEF-1"):
-    """DEF-1: the settings constructor establishes the documented defaults: every boolean option off, both thresholds 1 (the value the documentation and the CLI
-    state, and the smallest value the setters accept)."""
-    cons = [b for b in crate.bodies if b.kind == "assoc_fn" and b.arg_count == 0 and b.sig_output == CONFIG and not b.derived]
-    if not ctx.floor(rid, "argument-less constructors of the settings type", len(cons), 1):
+    """DEF-1: every argument-less producer of the settings type that is used establishes the documented defaults: every boolean option off, both thresholds 1
+    (the value the documentation and the CLI state, and the smallest value the setters accept).  Derived or trait producers (`Default`) count once something calls them."""
+    from sa import guards
+    cons = [b for b in crate.bodies if b.kind == "assoc_fn" and b.arg_count == 0 and b.sig_output == CONFIG
+            and (not (b.derived or b.impl_trait) or guards.call_sites(crate, b.path))]
+    if not ctx.floor(rid, "argument-less constructors of the settings type", len([b for b in cons if not b.derived]), 1):
         return
     adt = crate.adts.get(CONFIG)
     names = [f["name"] for f in adt["variants"][0]["fields"]]
     tys = [norm(f["ty"]) for f in adt["variants"][0]["fields"]]
+
+    def value(op, ty):
+        o = local.peel(op)
+        v = local.const_value(o)
+        if v is None and o[0] == "call" and o[1].endswith("as std::default::Default>::default") and not o[2]:
+            return False if ty == "bool" else (0 if re.match(r"^[ui](8|16|32|64|128|size)$", ty) else None)
+        return v
     for b in cons:
         r = local.peel(local.Defs(b).local(0))
         if not (r[0] == "agg" and r[1] == "adt" and len(r[3]) == len(names)):
@@ -831,12 +843,13 @@ def def1(ctx, crate, rid="DEF-1"):
             continue
         bad = []
         for nme, ty, op in zip(names, tys, r[3]):
-            v = local.const_value(local.peel(op))
+            v = value(op, ty)
             want = False if ty == "bool" else 1
             if v is None or v != want or (ty == "bool") != isinstance(v, bool):
                 bad.append("%s = %s (documented default: %s)" % (nme, v, want))
         if bad:
+            users = sorted({x[0].path for x in guards.call_sites(crate, b.path)})
             ctx.violation(rid, (b.path, "defaults"), "the settings constructor deviates from the documented defaults: %s: every build that does not call the corresponding setter behaves "
-                          "as if the option had been requested" % "; ".join(bad), b.loc())
+                          "as if the option had been requested%s" % ("; ".join(bad), (" (used by %s)" % ", ".join(users)) if users else ""), b.loc())
         else:
             ctx.ok(rid, b.path, {"fields": len(names)}, b.loc())
